@@ -529,7 +529,24 @@ struct Directed {
     /// body of the template (variables a, b: the operands under test; c: the container)
     body: String,
     /// candidate values for a and b
-    values: &'static [&'static str],
+    values: Vec<String>,
+}
+
+fn string_values() -> Vec<String> {
+    let h = |t: &str| tera_verif_harness::wire::hex(t.as_bytes());
+    let mut v: Vec<String> = [
+        "", "é", "e\u{301}", "😀👨\u{200d}👩\u{200d}👧", " ", "\n\n", "a\r\nb\n", "<>&\"'/", "0x10", "-1", "١٢٣", "ǆ ǅ", "ß straße", "İi", "\u{0}x", "one two  three\tfour",
+        "b", "ff", "1e3", "  pad  ", "ａｂ", "\u{feff}bom", "a,b,,c", "%7B", "\u{10ffff}",
+    ]
+    .iter()
+    .map(|t| format!("s:{}", h(t)))
+    .collect();
+    v.push(format!("S:{}", h("<i>safe</i>")));
+    v.push(format!("s:{}", h(&"é😀 ".repeat(700))));
+    for w in ["y:ff00fe", "y:", "y:c3a9", "N", "U", "B1", "i64:1", "f:3ff8000000000000", "A2 s:61 s:c3a9", "M1 s:61 s:62", "A2 y:ff N"] {
+        v.push(w.to_string());
+    }
+    v
 }
 
 fn directed_templates() -> Vec<Directed> {
@@ -541,6 +558,7 @@ fn directed_templates() -> Vec<Directed> {
         "{{ c.c[-1:a:b] }}", "{{ c.e[a:b] }}", "{{ (c.b | reverse)[a::b] }}", "{% for x in c.b[a:b:2] %}{{ x }}{% endfor %}",
         // indexing
         "{{ c.b[a] }}", "{{ c.c[a] }}", "{{ c.d[a] }}", "{{ c.b[a + b] }}", "{{ c.b?.x[a] }}", "{{ c.e[a] }}",
+        "{{ c.b?[a] }}{{ c.x?[a] }}{{ c.x?[a]?[b] }}", "{{ c.b?[a:b] }}{{ c.x?[a:b:a] }}{{ c.c?[::a] }}", "{{ a <= b }}{{ a > b }}",
         // range
         "{{ range(end=a) | length }}", "{{ range(start=a, end=b) | length }}", "{{ range(start=0, end=5, step_by=a) }}",
         "{{ range(start=a, end=b, step_by=a) | length }}", "{{ range(start=b, end=a, step_by=-1) | length }}",
@@ -564,7 +582,7 @@ fn directed_templates() -> Vec<Directed> {
         "{{ <dint n={a}/> }}{{ <dint n={b}/> }}", "{{ <dflt x={a}/> }}", "{{ <dstr s={a}/> }}",
     ];
     for t in ints {
-        out.push(Directed { group: "int-operand", body: t.to_string(), values: &INT_EXTREMES });
+        out.push(Directed { group: "int-operand", body: t.to_string(), values: INT_EXTREMES.iter().map(|x| x.to_string()).collect() });
     }
     let spreads: &[&str] = &[
         "{{ <dsp {...a}/> }}", "{{ <dsp {...a} v={1}/> }}", "{{ <dsp v={1} {...a} {...b}/> }}", "{% <dbody {...a}> %}x{% </dbody> %}",
@@ -575,7 +593,27 @@ fn directed_templates() -> Vec<Directed> {
         "{{ <dsp {...a} {...a} {...b}/> }}{{ <dtyped {...a}/> }}",
     ];
     for t in spreads {
-        out.push(Directed { group: "spread", body: t.to_string(), values: &SPREAD_VALUES });
+        out.push(Directed { group: "spread", body: t.to_string(), values: SPREAD_VALUES.iter().map(|x| x.to_string()).collect() });
+    }
+    // every string-handling built-in and string-shaped operand, on awkward strings and non-strings
+    let strings: &[&str] = &[
+        "{{ a | upper }}{{ a | lower }}", "{{ a | title }}", "{{ a | capitalize }}", "{{ a | trim }}{{ a | trim_start }}{{ a | trim_end }}",
+        "{{ a | trim(pat=b) }}", "{{ a | trim_start(pat=b) }}", "{{ a | trim_end(pat=b) }}", "{{ a | wordcount }}", "{{ a | truncate(length=1) }}{{ a | truncate(length=0, end=b) }}",
+        "{{ a | truncate(length=3) }}{{ a | truncate(length=2, end=\"\") }}", "{{ a | indent(width=2, first=true, blank=true) }}", "{{ a | indent(width=0) }}{{ a | indent(first=b, blank=b) }}",
+        "{{ a | split(pat=b) }}", "{{ a | split(pat=\"\") }}", "{{ a | replace(from=b, to=a) }}", "{{ a | replace(from=\"\", to=b) }}", "{{ a | escape_html }}{{ a | escape_xml }}",
+        "{{ a | newlines_to_br }}", "{{ a | pluralize(singular=b, plural=a) }}", "{{ a | length }}{{ a | reverse }}", "{{ a | first }}{{ a | last }}{{ a | nth(n=1) }}",
+        "{{ a[0] }}{{ a[-1] }}", "{{ a[::-1] }}{{ a[1:] }}{{ a[:-1] }}{{ a[::2] }}", "{{ a is starting_with(pat=b) }}{{ a is ending_with(pat=b) }}", "{{ a is containing(pat=b) }}{{ a in b }}",
+        "{{ a ~ b }}{{ b ~ a ~ 1 }}", "{{ a | int }}{{ a | float }}", "{{ a | int(base=16) }}{{ a | int(base=2) }}{{ a | int(base=36) }}", "{{ a | str }}{{ a | str | length }}",
+        "{{ a is string }}{{ a is number }}{{ a is integer }}{{ a is float }}{{ a is map }}{{ a is array }}{{ a is iterable }}{{ a is bool }}{{ a is none }}{{ a is defined }}{{ a is undefined }}",
+        "{% for x in a %}{{ x }}{{ loop.index }}{{ loop.first }}{{ loop.last }}{{ loop.length }}{% endfor %}", "{% for k, v in a %}{{ k }}{{ v }}{% endfor %}", "{{ a | keys }}{{ a | values }}{{ a | pairs }}",
+        "{{ [a, b] | join(sep=a) }}", "{{ [a, b, a] | sort }}{{ [a, b, a] | unique }}", "{{ a | default(value=b, boolean=true) }}{{ a | default(value=1, boolean=b) }}", "{{ throw(message=a) }}",
+        "{{ a | safe }}{{ a | safe | upper }}{{ a | upper | safe }}", "{{ a | get(key=b, default=a) }}{{ {\"k\": a} | get(key=\"k\") }}", "{{ {\"k\": a, \"l\": b} }}{{ [a, [b, a]] }}",
+        "{% filter upper %}{{ a }}{% endfilter %}{% filter trim(pat=b) %} {{ a }} {% endfilter %}", "{% set v | upper | truncate(length=2) %}{{ a }}{{ b }}{% endset %}{{ v }}", "{{ <dstr s={a}/> }}{{ <dsp name={a} v={b}/> }}",
+        "{% <dbody v={a}> %}{{ b }}{% </dbody> %}", "{{ a == b }}{{ a != b }}{{ a < b }}", "{{ a and b }}{{ a or b }}{{ not a }}{{ a if b else 1 }}", "{{ c.e ~ a }}{{ c.e | str }}{{ [c.e, a] | join(sep=c.e) }}{% for x in c.e %}{{ x }}{% endfor %}",
+        "{% for x in c.c %}{{ x }}{{ loop.last }}{% endfor %}{% for k, v in c.d %}{{ k }}{{ v }}{% endfor %}",
+    ];
+    for t in strings {
+        out.push(Directed { group: "string-operand", body: t.to_string(), values: string_values() });
     }
     out
 }
@@ -1010,13 +1048,13 @@ fn main() {
             let name = if k % 2 == 0 { format!("d{k}.html") } else { format!("d{k}") };
             templates.push((name.clone(), d.body.clone()));
             let mut ctxs: Vec<Vec<String>> = Vec::new();
-            for a in d.values {
+            for a in &d.values {
                 let n_b = env.budget(4, d.values.len());
                 for j in 0..n_b {
-                    let b = if env.quick() {
-                        match j { 0 => "i64:1", 1 => d.values[0], _ => d.values[rng.below(d.values.len())] }
+                    let b: &str = if env.quick() {
+                        match j { 0 => "i64:1", 1 => &d.values[0], _ => &d.values[rng.below(d.values.len())] }
                     } else {
-                        d.values[j]
+                        &d.values[j]
                     };
                     ctxs.push(vec![a.to_string(), b.to_string(), container.clone()]);
                 }
@@ -1037,7 +1075,22 @@ fn main() {
                 report.notes.push(format!("directed stream does not register ({}): {:?}", e.lines().next().unwrap_or(""), bad.iter().take(4).collect::<Vec<_>>()));
                 report.violation("model-mismatch", "the directed templates of the C07 harness do not register".into(), serde_json::json!({"detail": {"stage": "generator:directed", "bad": bad}}));
             }
-            Ok(_) => {
+            Ok(t) => {
+                for (name, _) in templates.iter().skip(1) {
+                    for (_, l) in hooks::stored_chunks_wire(&t, name).unwrap_or_default() {
+                        for tok in &l {
+                            report.count(&format!("instr.{}", split_tok(tok).0));
+                        }
+                        if let Ok(a) = driver::run_batch(&exe, &[format!("wf {}", l.join(" "))]) {
+                            report.model_comparisons += 1;
+                            if a[0] != "ok" {
+                                report.model_disagreements += 1;
+                                report.violation("model-mismatch", format!("the bytecode checker rejects a chunk of the directed template {name}: {}", a[0]),
+                                    serde_json::json!({"chunk_listing": l.join(" "), "detail": {"stage": "wellformed-checker", "answer": a[0]}}));
+                            }
+                        }
+                    }
+                }
                 let per = 12usize;
                 let batches: Vec<Batch> = items.chunks(per).map(|it| Batch { common: serde_json::json!({"templates": templates}), items: it.to_vec() }).collect();
                 let results = run_batches(CHILD_FLAG, &batches, std::time::Duration::from_secs(600), threads);
@@ -1325,6 +1378,55 @@ fn main() {
                     serde_json::json!({"templates": set, "render": render, "mode": "render", "context": rich.to_vec(), "detail": {"reason": reason}}));
             }
             None => report.count(&format!("depth.{what}.ok")),
+        }
+    }
+
+    // ---- 6. values nested at render time
+    {
+        // moderate depth: always (must simply work)
+        let moderate = vec![(
+            "nest".to_string(),
+            "{% set_global a = 1 %}{% set_global m = 1 %}{% for i in range(end=1500) %}{% set_global a = [a] %}{% set_global m = {\"k\": m} %}{% endfor %}{{ a | length }}{{ a == a }}{{ m == m }}{{ [a, a] | sort | length }}{{ a }}{{ m }}".to_string(),
+        )];
+        report.evaluations += 1;
+        report.oracle_checks += 1;
+        let b = Batch { common: serde_json::json!({"templates": moderate, "limit_secs": 30}), items: vec![set_item("nest", &[["-".to_string(), "-".to_string(), "-".to_string()]])] };
+        let r = run_batch(CHILD_FLAG, 620_000, &b, std::time::Duration::from_secs(90), 0);
+        let bad = r.culprits.first().map(|c| c.1.clone()).or_else(|| r.results.iter().flat_map(|(_, ls)| ls.iter()).find_map(|l| l.strip_prefix("V ").or(l.strip_prefix("B ")).map(|s| s.to_string())));
+        match bad {
+            Some(reason) => {
+                report.oracle_failures += 1;
+                report.violation("property", format!("a value nested 1500 deep at render time: {}", reason.chars().take(160).collect::<String>()),
+                    serde_json::json!({"templates": moderate, "render": "nest", "mode": "render", "context": ["-", "-", "-"], "detail": {"reason": reason}}));
+            }
+            None => report.count("depth.runtime-nesting-1500.ok"),
+        }
+        // the depth range() allows (100000): only once the finding is recorded in known_findings.json
+        let kf: serde_json::Value = std::fs::read_to_string(env.verif_dir.join("known_findings.json")).ok().and_then(|t| serde_json::from_str(&t).ok()).unwrap_or_default();
+        let entry = kf["findings"].as_array().and_then(|a| a.iter().find(|f| f["property"] == "C07" && f["shape"] == "runtime-value-depth").cloned());
+        match entry {
+            None => report.notes.push("probe `runtime-value-depth` (a value nested 100000 deep by a render-time loop aborts the process when it is dropped) is not run: no C07 entry with that shape in known_findings.json yet".into()),
+            Some(e) => {
+                let deep = vec![("deep".to_string(), "{% set_global a = 1 %}{% for i in range(end=100000) %}{% set_global a = [a] %}{% endfor %}x".to_string())];
+                report.evaluations += 1;
+                report.oracle_checks += 1;
+                let b = Batch { common: serde_json::json!({"templates": deep, "limit_secs": 30}), items: vec![set_item("deep", &[["-".to_string(), "-".to_string(), "-".to_string()]])] };
+                let r = run_batch(CHILD_FLAG, 610_000, &b, std::time::Duration::from_secs(90), 0);
+                let bad = r.culprits.first().map(|c| c.1.clone()).or_else(|| r.results.iter().flat_map(|(_, ls)| ls.iter()).find_map(|l| l.strip_prefix("V ").map(|s| s.to_string())));
+                match bad {
+                    Some(reason) => {
+                        report.oracle_failures += 1;
+                        report.violation("property", format!("a value nested 100000 deep by a render-time loop: the render does not return a value ({})", reason.chars().take(120).collect::<String>()),
+                            serde_json::json!({"templates": deep, "render": "deep", "mode": "render", "context": ["-", "-", "-"], "detail": {"reason": reason}}));
+                        if e["status"] == "known" {
+                            if let (Some(v), Some(id)) = (report.violations.last_mut(), e["id"].as_str()) {
+                                v.known = Some(id.to_string());
+                            }
+                        }
+                    }
+                    None => report.count("depth.runtime-nesting-100000.ok"),
+                }
+            }
         }
     }
 
